@@ -29,7 +29,7 @@ import ir2c
 GUARD = 'LIBNOP_VERIF'
 CLANG = 'clang++-14'
 CLANG_FLAGS = ['-std=c++14', '-O1', '-fno-exceptions', '-fno-rtti', '-fno-vectorize', '-fno-slp-vectorize',
-               '-fno-unroll-loops', '-fno-inline', '-D' + GUARD, '-I' + os.path.join(REPO, 'include'), '-I' + RT, '-I' + HDIR,
+               '-fno-unroll-loops'] + ([] if os.environ.get('VERIF_INLINE') == '1' else ['-fno-inline']) + ['-D' + GUARD, '-I' + os.path.join(REPO, 'include'), '-I' + RT, '-I' + HDIR,
                '-S', '-emit-llvm', '-w']
 GXX_FLAGS = ['-std=c++14', '-DVRT_REAL_STREAMS', '-D' + GUARD, '-I' + os.path.join(REPO, 'include'), '-I' + RT, '-I' + HDIR, '-w']
 CBMC_BASE = ['--object-bits', '12', '--unwinding-assertions', '--drop-unused-functions', '--pointer-overflow-check',
